@@ -298,7 +298,9 @@ def _vnacal_family(rng):
     s.add("buf am cmatrix 4 %d" % F)
     s.add("buf am1 cmatrix 1 %d" % F)
     s.add("buf am9 cmatrix 9 %d" % F)
-    s.add("buf aa cmatrix 4 %d" % F)
+    ident = " ".join(cx(v) for v in [1, 1, 0, 0, 0, 0, 1, 1])
+    s.add("buf aa cmatrix 4 %d %s" % (F, ident))
+    s.add("buf aa0 cmatrix 4 %d" % F)
     s.rvec("flow", [1e3, 2e3])
     s.rvec("fdesc", [3e9, 2e9])
     X("", "vd1=vnadata_alloc")
@@ -312,7 +314,7 @@ def _vnacal_family(rng):
           ("!", "vnacal_apply_m $vc1 $ci1 @freq %d NULL 2 2 $vd1" % F),
           ("!", "vnacal_apply $vc1 $ci1 @freq %d @aa 2 2 NULL 2 2 $vd1" % F),
           ("!", "vnacal_apply $vc1 $ci1 @freq %d @aa 1 2 @am1 1 1 $vd1" % F),
-          ("?", "vnacal_apply $vc1 $ci1 @freq %d @aa 2 2 @am 2 2 $vd1" % F)]
+          ("?", "vnacal_apply $vc1 $ci1 @freq %d @aa0 2 2 @am 2 2 $vd1" % F)]
     if sc is None:
         ap = ap[:2]
     # ---- parameters
@@ -365,7 +367,8 @@ def _vnacal_family(rng):
     s.rvec("nsigneg", [-1e-3, 1e-3])
     s.add("buf nm cmatrix 4 2")
     s.add("buf nm1 cmatrix 1 2")
-    s.add("buf na cmatrix 4 2")
+    s.add("buf na cmatrix 4 2 %s" % ident)
+    s.add("buf na0 cmatrix 4 2")
     s.ivec("nsl", ["0", "1", "1", "0"])
     s.ivec("nslbad", ["0", "1", "4242", "0"])
     s.ivec("nsl9", ["0"] * 9)
@@ -407,7 +410,7 @@ def _vnacal_family(rng):
             ("!", "vnacal_new_add_single_reflect_m $vn3 @nm 2 -1 2 1"),
             ("!", "vnacal_new_add_single_reflect $vn3 @na 2 2 NULL 2 2 2 1"),
             ("!", "vnacal_new_add_single_reflect $vn3 @na6 3 2 @nm 2 2 2 1"),
-            ("?", "vnacal_new_add_single_reflect $vn3 @na 2 2 @nm 2 2 2 1"),
+            ("?", "vnacal_new_add_single_reflect $vn3 @na0 2 2 @nm 2 2 2 1"),
             ("?", "vnacal_new_solve $vn3")]
     groups = [tbl, ap, prm, new]
     for gi in rng.permutation(len(groups)):
@@ -451,6 +454,7 @@ class TwinGen(object):
         self.rng = rng
         self.s = Script()
         self.cand = set()     # lines that are refusal candidates
+        self.math = set()     # ... refused for a singular 'a' matrix (EDOM)
         self.sc = None
         self.kappa = None
         self.lines = {}
@@ -475,8 +479,47 @@ class TwinGen(object):
         """a few calls on $vn that the manual declares invalid"""
         r, s = self.rng, self.s
         F = sc.F
-        k = int(r.integers(0, 9))
+        k = int(r.integers(0, 12))
         n = self.n = getattr(self, "n", 0) + 1
+        if k == 11:
+            if sc.form != "ab":
+                k = 5
+            else:
+                # a valid standard whose 'a' matrix is zero at the last
+                # frequency: refused late, after the first ones were divided
+                import copy
+                st = sc.stds[int(r.integers(0, len(sc.stds)))]
+                st2 = copy.copy(st)
+                st2.sp = [[copy.copy(q) for q in row] for row in st.sp]
+                for row in st2.sp:
+                    for q in row:
+                        q.var = None
+                st2.A = None
+                idx = 7000 + n
+                ln = sc.emit_std(s, st2, idx, vn=vn, uid=[800000 + n * 100])
+                for i in range(ln - 1, -1, -1):
+                    if s.lines[i].startswith("buf a%d cmatrix " % idx):
+                        t = s.lines[i].split(" ")
+                        cells, nf = int(t[3]), int(t[4])
+                        vals = t[5:]
+                        for c in range(cells):
+                            vals[2 * (c * nf + nf - 1)] = hx(0.0)
+                            vals[2 * (c * nf + nf - 1) + 1] = hx(0.0)
+                        s.lines[i] = " ".join(t[:5] + vals)
+                        break
+                self.cand.add(ln)
+                self.math.add(ln)
+                return
+        if k >= 9 and sc.p >= 2:
+            # the first handle is valid (a fresh unknown parameter), the
+            # second is not: nothing of the refused standard may stay behind
+            s.op("ru%d=vnacal_make_unknown_parameter $vc %d" % (
+                n, int(r.integers(0, 3))))
+            s.add("buf rz%d cmatrix %d %d" % (n, sc.r * sc.c, F))
+            self.cand.add(s.op(
+                "vnacal_new_add_double_reflect_m $%s @rz%d %d %d $ru%d %d 1 2"
+                % (vn, n, sc.r, sc.c, n, int(r.choice([4242, -1])))))
+            return
         if k == 0:
             s.rvec("rf%d" % n, list(sc.freqs[::-1]) if F > 1 else [-1.0])
             self.cand.add(s.op("vnacal_new_set_frequency_vector $%s @rf%d" % (
